@@ -5,7 +5,8 @@ R5 simulate() registers every field of one generator call; R6 every generator te
 output; R8 the quadratic-exponential variance step maps V >= 0 to V >= 0 (inductive sign certificate; Heston variance = that series).
 Third round: R10 buffer-registry histories of the primaries (last registration wins, one buffer per name, simulate replaces, re-configuration), the antithetic engine returns N rows.
 Rounds 4-5: R3e the library's own engines honour the dtype request (the requested dtype, else the global default).
-Round 7: R5 one call into the generator package per simulation, from simulate or a hook of it."""
+Round 7: R5 one call into the generator package per simulation, from simulate or a hook of it.
+Round 7: R2i a given init_state reaches the generator as given on every path of every instrument's simulate (tuple and scalar form)."""
 import ast
 
 import sympy as sp
@@ -494,6 +495,10 @@ _check_before_histories = check
 def check(ctx, run):  # noqa: F811
     """R10: after simulate() the registered buffers are those of the last simulation, one per name (call histories, pfsa/registry.py)"""
     _check_before_histories(ctx, run)
+    # R2i: at the instrument level "the first column equals the requested initial state" needs the request to reach the generator as given
+    # on every path of simulate (a truthiness test `init_state or default` replaces a start at zero by the default)
+    from ..primaries import init_forwarding_rule
+    init_forwarding_rule(ctx, run, "C11.R2i")
     from ..registry import primary_histories_rule
     primary_histories_rule(ctx, run, "C11.R10")
     # the library's own engine returns the requested number of paths (the generators assume engine(*size) has that size)
